@@ -362,12 +362,25 @@ def iterable_validated(an, fn, expr, node):
     return True
 
 
-def fast_path_guard(an, fn, node, data_expr, avoid=None):
+def _split_atoms(e, truth, node, out):
+    if isinstance(e, ast.UnaryOp) and isinstance(e.op, ast.Not):
+        return _split_atoms(e.operand, not truth, node, out)
+    if isinstance(e, ast.BoolOp) and ((isinstance(e.op, ast.And) and truth) or (isinstance(e.op, ast.Or) and not truth)):
+        for v in e.values:
+            _split_atoms(v, truth, node, out)
+        return out
+    out.append((e, truth, node))
+    return out
+
+
+def fast_path_guard(an, fn, node, data_expr, avoid=None, assume=()):
     """Is node dominated by `isinstance(X, <same proxy class>)` and an identity test between X's
     field and the receiver's, where the data handed on is X (or comes from iterating X)?  With *avoid* (the nodes that
     re-define the data variable) only the paths on which the original value is still live are considered."""
     cls = fn.cls
     atoms = guard_atoms(an, fn, node, avoid)      # dominating outcomes, local flags written out
+    for e_, truth_ in assume:                     # the test of the conditional expression the data sits in
+        _split_atoms(e_, truth_, node, atoms)
     xs = set()
     for e, truth, t in atoms:
         if truth and isinstance(e, ast.Call) and isinstance(e.func, ast.Name) and e.func.id == "isinstance" \
@@ -467,7 +480,7 @@ def _is_identity_conjunction(an, f) -> bool:
     return ok_field
 
 
-def arg_validated(an, fn, expr, node, form, depth=0, use_node=None):
+def arg_validated(an, fn, expr, node, form, depth=0, use_node=None, assume=()):
     """(ok, why): does *expr*, evaluated at *node*, carry only data that went through self._validate (in the shape
     *form* asks for), or data of a proxy of the same field (fast path)?  Followed through local definitions; every
     reaching definition must qualify on its own."""
@@ -478,9 +491,9 @@ def arg_validated(an, fn, expr, node, form, depth=0, use_node=None):
 
     def guarded(e):
         # the same-field fast path may be established where the value is used or where it was copied
-        ok, why = fast_path_guard(an, fn, use_node, e)
+        ok, why = fast_path_guard(an, fn, use_node, e, assume=assume)
         if not ok and node is not use_node:
-            ok2, why2 = fast_path_guard(an, fn, node, e)
+            ok2, why2 = fast_path_guard(an, fn, node, e, assume=assume)
             if ok2:
                 return ok2, why2
         return ok, why
@@ -488,8 +501,8 @@ def arg_validated(an, fn, expr, node, form, depth=0, use_node=None):
     want_iter = form in ("iter", "elem-or-iter", "pairs")
     index = 0 if form == "key" else (1 if form == "value" else None)
     if isinstance(expr, ast.IfExp):
-        a, wa = arg_validated(an, fn, expr.body, node, form, depth + 1, use_node)
-        b, wb = arg_validated(an, fn, expr.orelse, node, form, depth + 1, use_node)
+        a, wa = arg_validated(an, fn, expr.body, node, form, depth + 1, use_node, tuple(assume) + ((expr.test, True),))
+        b, wb = arg_validated(an, fn, expr.orelse, node, form, depth + 1, use_node, tuple(assume) + ((expr.test, False),))
         return a and b, wa if not a else wb
     if want_elem and index is None and _proxy_validate_call(an, fn, expr):
         return True, "self._validate(...)"
@@ -505,11 +518,13 @@ def arg_validated(an, fn, expr, node, form, depth=0, use_node=None):
         defs = rd.reaching(node, expr.id)
         if not defs:
             return False, "%s has no local definition" % expr.id
-        if node is use_node and not all(d.kind == "param" for d in defs):
-            # the local itself may be what the fast-path guard was established on (`source = iterable or []`; guard on source)
-            ok0, why0 = fast_path_guard(an, fn, use_node, expr)
-            if ok0:
-                return ok0, why0
+        if not all(d.kind == "param" for d in defs):
+            # the local itself may be what the fast-path guard was established on (`source = iterable or []`; guard on source),
+            # where it is used or where it is copied on
+            for at_ in ([use_node] if node is use_node else [node, use_node]):
+                ok0, why0 = fast_path_guard(an, fn, at_, expr, assume=assume)
+                if ok0:
+                    return ok0, why0
         whys = []
         for d in defs:
             if d.kind == "assign" and d.value is not None:
